@@ -27,8 +27,9 @@ LEVEL_TEXT = ('static analysis: (D1) export_bed interpreted on one segment per c
               " one after the other; fmt_jtv / fmt_cdt rows are the label plus every sample's value; (D6) the stated sample sex reaches the "
               'export through verify_sample_sex (C15 rule); (D5) the sex / PAR / ploidy flags reach same-role parameters from the export commands'
               " down to the calling functions. D2 also exports a table without a cn column (cn = round(r * 2^log2) with the reference's copies r)"
-              ' for both sample sexes and reference sexes. (CLI) the `export bed / vcf / seg` command line(s), through a model of argparse built '
-              'from the declarations in commands.py and the real _cmd_ body interpreted with readers, library step and writers stubbed: ploidy, '
+              " for both sample sexes and reference sexes. D1's no-cn cells also run under a PAR genome for both sample sexes (the estimate "
+              'without a cn column is the pure one). (CLI) the `export bed / vcf / seg` command line(s), through a model of argparse built from '
+              'the declarations in commands.py and the real _cmd_ body interpreted with readers, library step and writers stubbed: ploidy, '
               "reference sex, stated sample sex, PAR genome, label (-i / --label-genes / the file's sample id), --show and every input file reach"
               ' the export functions as given. Does not decide the text layout of INFO beyond the named fields.')
 TECHNIQUE = "abstract interpretation of the export functions (row classes x flags, f-string fields with holes); dominance; role-flow"
